@@ -259,10 +259,14 @@ def run(chk) -> None:
         # arms breaks / returns; an `if` that merely does bookkeeping on the popped tick is not an exit
         exits = [t for t in inside if t.ast is lp or any(isinstance(x, (ast.Break, ast.Return)) for x in ast.walk(t.ast))]
         extra = []
+        heap_x = ast.unparse(expand(ast.parse(heap, mode="eval").body, lp, depth=2))  # the heap behind a local alias
+        allowed = {h_ for hp in (heap, heap_x) for h_ in (hp, f"{nowp} < {hp}[0][0]")}
         for t in exits:
-            for a_, pol in atoms(expand(t.ast.test, t.ast), True):
-                if a_ not in (heap, f"{nowp} < {heap}[0][0]"):
-                    extra.append(a_)
+            raw = [a_ for a_, _p in atoms(t.ast.test, True)]
+            exp = [a_ for a_, _p in atoms(expand(t.ast.test, t.ast), True)]
+            for a_raw, a_exp in zip(raw, exp) if len(raw) == len(exp) else [(a_, a_) for a_ in exp]:
+                if a_raw not in allowed and a_exp not in allowed:
+                    extra.append(a_exp)
         chk.ob("C06.R2", "the release loop stops only on an empty heap or a first entry that is not due yet", not extra, m=mr, node=lp, fn=pop, instance="pop:all-due", reason=f"further loop conditions {sorted(set(extra))}")
     _, st = repo.func(f"{RUNNER}.schedule_tick")
     push = [c for c in ast.walk(st) if isinstance(c, ast.Call) and last(call_name(c)) == "heappush"]
